@@ -215,7 +215,9 @@ func (c *Compiler) applyAugment(
 			applyToPfx := applyToPath[0].Space
 			applyToMod, _ := kid.GetModuleByPrefix(
 				applyToPfx, c.modules, c.skipUnknown)
-			if err := c.expandGroupings(applyToMod, applyToNode, schema.Current); err != nil {
+			// (the target is as deprecated or obsolete as the uses or
+			// augment that leads to it)
+			if err := c.expandGroupings(applyToMod, applyToNode, parentStatus); err != nil {
 				c.error(applyToNode, err)
 				return
 			}
@@ -604,7 +606,14 @@ func (c *Compiler) applyUsesToNode(mod, nod, use parse.Node, parentStatus schema
 		// forward referenced grouping contains a second forward reference
 		// that is not at top level of grouping (that scenario is dealt with
 		// in expandGroupings())
-		if err := c.expandGroupings(gmod, newKid, schema.Current); err != nil {
+		// The copy is as deprecated or obsolete as the place it is
+		// copied to: a 'uses' inside it is checked against that status,
+		// as it is when the grouping is expanded where it is written.
+		kidStatus := parentStatus
+		if st := use.ChildByType(parse.NodeStatus); st != nil {
+			kidStatus = parseStatus(st)
+		}
+		if err := c.expandGroupings(gmod, newKid, kidStatus); err != nil {
 			c.error(newKid, err)
 		}
 		refinedNodes = append(refinedNodes, newKid)
